@@ -22,8 +22,9 @@ def _cls(ip, mod, name):
   return ip.getattr(ip.get_module(mod), name)
 
 
-def make_operand(ip, s, pfx, kind, mv_kind=None):
-  """Returns (qtools type object, spec lattice).  Adds the kind's requires."""
+def make_qkeras(ip, s, pfx, kind, mv_kind=None, alpha=None):
+  """Returns (qkeras quantizer object, qtools class name, spec lattice of the values the quantizer
+  emits).  Adds the kind's requires.  All numeric options are symbolic."""
   V = s.vars
   if kind in ("qbits", "qrelu"):
     bits, integer = z3.Int(pfx + "_bits"), z3.Int(pfx + "_int")
@@ -34,18 +35,16 @@ def make_operand(ip, s, pfx, kind, mv_kind=None):
       V[pfx + "_signed"] = signed
       ip.assume(z3.And(signed >= 0, signed <= 1, bits - signed >= 0))
       q = ip.call(_cls(ip, QZ, "quantized_bits"),
-                  [SNum(bits), SNum(integer), 0, SNum(signed)], {})
-      t = ip.call(_cls(ip, QI, "QuantizedBits"), [], {})
+                  [SNum(bits), SNum(integer), 0, SNum(signed)], {} if alpha is None else {"alpha": alpha})
+      tname = "QuantizedBits"
       lat = S.fixed_lattice(bits, integer, signed)
     else:
-      signed = z3.IntVal(0)
       q = ip.call(_cls(ip, QZ, "quantized_relu"), [SNum(bits), SNum(integer)], {})
-      t = ip.call(_cls(ip, QI, "QuantizedRelu"), [], {})
+      tname = "QuantizedRelu"
       lat = S.fixed_lattice(bits, integer, 0)
-    ip.call(ip.getattr(t, "convert_qkeras_quantizer"), [q], {})
     V[pfx + "_lo"] = lat.lo
     V[pfx + "_hi"] = lat.hi
-    return t, lat
+    return q, tname, lat
   if kind in ("po2", "relu_po2"):
     bits = z3.Int(pfx + "_bits")
     V[pfx + "_bits"] = bits
@@ -67,8 +66,6 @@ def make_operand(ip, s, pfx, kind, mv_kind=None):
       mvv = SNum(mv, "float")
     name = "quantized_po2" if kind == "po2" else "quantized_relu_po2"
     q = ip.call(_cls(ip, QZ, name), [SNum(bits), mvv], {})
-    t = ip.call(_cls(ip, QI, "PowerOfTwo" if kind == "po2" else "ReluPowerOfTwo"), [], {})
-    ip.call(ip.getattr(t, "convert_qkeras_quantizer"), [q], {})
     emin, emax, eff = S.po2_exponent_interval(bits, sg, 0 if mv_kind == "le1" else 1)
     # value set: exponents the qkeras quantizer can emit; upper limit from max_value
     if mv is not None:
@@ -80,21 +77,25 @@ def make_operand(ip, s, pfx, kind, mv_kind=None):
     V[pfx + "_emin"] = emin
     V[pfx + "_emax"] = emax
     V[pfx + "_nsb"] = bits - sg
-    return t, lat
+    return q, ("PowerOfTwo" if kind == "po2" else "ReluPowerOfTwo"), lat
   if kind == "ternary":
-    q = ip.call(_cls(ip, QZ, "ternary"), [], {})
-    t = ip.call(_cls(ip, QI, "Ternary"), [], {})
-    ip.call(ip.getattr(t, "convert_qkeras_quantizer"), [q], {})
-    return t, S.Finite([-1, 0, 1])
+    q = ip.call(_cls(ip, QZ, "ternary"), [], {} if alpha is None else {"alpha": alpha})
+    return q, "Ternary", S.Finite([-1, 0, 1])
   if kind in ("binary", "binary01"):
-    q = ip.call(_cls(ip, QZ, "binary"), [kind == "binary01"], {})
-    t = ip.call(_cls(ip, QI, "Binary"), [], {})
-    ip.call(ip.getattr(t, "convert_qkeras_quantizer"), [q], {})
-    return t, S.Finite([0, 1] if kind == "binary01" else [-1, 1])
+    q = ip.call(_cls(ip, QZ, "binary"), [kind == "binary01"], {} if alpha is None else {"alpha": alpha})
+    return q, "Binary", S.Finite([0, 1] if kind == "binary01" else [-1, 1])
+  raise ValueError(kind)
+
+
+def make_operand(ip, s, pfx, kind, mv_kind=None):
+  """Returns (qtools type object, spec lattice).  Adds the kind's requires."""
   if kind == "float":
     t = ip.call(_cls(ip, QI, "FloatingPoint"), [32], {})
     return t, S.Float()
-  raise ValueError(kind)
+  q, tname, lat = make_qkeras(ip, s, pfx, kind, mv_kind)
+  t = ip.call(_cls(ip, QI, tname), [], {})
+  ip.call(ip.getattr(t, "convert_qkeras_quantizer"), [q], {})
+  return t, lat
 
 
 def type_lattice(ip, t, s, mv_sym=None):
